@@ -12,6 +12,7 @@ import (
 	"encoding/json"
 	"io"
 	"log"
+	"math/big"
 	"sort"
 	"sync"
 	"testing"
@@ -233,6 +234,20 @@ func runCarry(t *testing.T, viol *[]directViolation) int {
 	for variant := 0; variant < 3; variant++ {
 		synctest.Test(t, func(t *testing.T) {
 			nd := NewNode(t, NodeOpts{N: 4, F: 1})
+			nd.Runnable.SetFn(func(_ context.Context, ps ...common.UpkeepPayload) ([]common.CheckResult, error) {
+				var out []common.CheckResult
+				for _, p := range ps {
+					out = append(out, common.CheckResult{Eligible: true, UpkeepID: p.UpkeepID, Trigger: p.Trigger, WorkID: p.WorkID,
+						GasAllocated: 1, FastGasWei: big.NewInt(1), LinkNative: big.NewInt(1)})
+				}
+				return out, nil
+			})
+			proposedOther := false
+			defer func() {
+				if !proposedOther {
+					*viol = append(*viol, directViolation{"carried-outcome", "harness: the control proposal never appeared in an observation (scenario did not exercise the pending set)"})
+				}
+			}()
 			defer func() {
 				time.Sleep(2 * time.Second)
 				synctest.Wait()
@@ -260,6 +275,9 @@ func runCarry(t *testing.T, viol *[]directViolation) int {
 				var o ocr2keepersv3.AutomationObservation
 				_ = gojsonUnmarshal(ob, &o)
 				for _, p := range o.UpkeepProposals {
+					if p.WorkID == other.WorkID {
+						proposedOther = true
+					}
 					if p.WorkID == w.WorkID {
 						*viol = append(*viol, directViolation{"carried-outcome", what + ": the observation proposes work that the previous outcome lists as surfaced"})
 					}
